@@ -248,7 +248,7 @@ impl ProgGen {
             .sites
             .iter()
             .enumerate()
-            .filter(|(_, v)| matches!(v.kind, Kind::Duo | Kind::DlySrc))
+            .filter(|(_, v)| matches!(v.kind, Kind::Duo | Kind::DlySrc | Kind::FeedDly))
             .map(|(i, _)| i)
             .collect();
         if !composites.is_empty() && rng.chance(1, 2) {
@@ -328,7 +328,7 @@ impl ProgGen {
                 }
                 80..=87 if n >= 1 => {
                     let pos = rng.below(n as u64) as usize;
-                    if p.sites[pos].wrap < 2 && !matches!(p.sites[pos].kind, Kind::Duo | Kind::DlySrc | Kind::InMem | Kind::InDly) {
+                    if p.sites[pos].wrap < 2 && !matches!(p.sites[pos].kind, Kind::Duo | Kind::DlySrc | Kind::FeedDly | Kind::InMem | Kind::InDly) {
                         let old_id = p.sites[pos].id;
                         let new_id = self.fresh_id();
                         p.sites[pos].wrap += 1;
